@@ -13,6 +13,7 @@ BUILD = os.path.join(ROOT, 'build')
 CHECKS = ['--bounds-check', '--pointer-check', '--pointer-overflow-check', '--signed-overflow-check',
           '--div-by-zero-check', '--undefined-shift-check', '--pointer-primitive-check']
 MEM_KB = 24 * 1024 * 1024
+LIBC_OK = {'malloc', 'free', 'calloc', 'abort', 'exit', '__assert_fail'}
 
 
 class Group:
@@ -134,40 +135,47 @@ def run_group(g, workdir):
         r.detail = 'goto-cc failed:\n' + out[-3000:]
         return r
     cur = gb
-    if g.loop_contracts:
+    # ---- loops: map goto loop ids to (function, source ordinal) through the /*@L:fn:k:C|N*/ markers of the lowered text
+    rc, out = sh(['goto-instrument', '--show-loops', '--json-ui', gb], timeout=120)
+    try:
+        loops = [l for item in json.loads(out[out.index('['):]) if isinstance(item, dict) for l in item.get('loops', [])]
+    except Exception:
+        r.detail = 'cannot list loops: ' + out[-500:]
+        return r
+    markers = {}
+    for u in ([g.unit] if g.unit else []):
+        for ln, text in enumerate(open(os.path.join(BUILD, u + '.c')), 1):
+            m = re.search(r'/\*@L:(\w+):(\d+):([CN])\*/', text)
+            if m:
+                markers[(os.path.join(BUILD, u + '.c'), ln)] = m.groups()
+    uw = []
+    r.contract_loops = []
+    for l in loops:
+        loc = l.get('sourceLocation', {})
+        mk = markers.get((loc.get('file'), int(loc.get('line', 0) or 0)))
+        if g.loop_contracts and mk and mk[2] == 'C':
+            r.contract_loops.append(l['name'])
+            continue
+        if l['name'].startswith('__CPROVER') or not loc.get('file'):
+            continue
+        fn = l['name'].rsplit('.', 1)[0]
+        bound = None
+        if mk:
+            bound = g.unwind_by.get(f'{mk[0]}#{mk[1]}')
+        if bound is None:
+            bound = g.unwind_by.get(l['name'], g.unwind_by.get(fn, g.unwind))
+        if bound is not None:
+            uw.append(f"{l['name']}:{bound}")
+    r.unwindset = uw
+    if g.loop_contracts and uw:
         # loops without a contract must be unwound BEFORE dfcc (dfcc's loop write sets reject locals of nested loops)
-        rc, out = sh(['goto-instrument', '--show-loops', '--json-ui', gb], timeout=120)
-        try:
-            loops = [l for item in json.loads(out[out.index('['):]) if isinstance(item, dict) for l in item.get('loops', [])]
-        except Exception:
-            r.detail = 'cannot list loops: ' + out[-500:]
+        gb1 = os.path.join(workdir, 'a1.gb')
+        rc, out = sh(['goto-instrument', '--unwindset', ','.join(uw), '--unwinding-assertions', gb, gb1], timeout=600)
+        r.log += out
+        if rc != 0:
+            r.detail = 'goto-instrument --unwindset failed:\n' + out[-2000:]
             return r
-        markers = {}
-        for u in ([g.unit] if g.unit else []):
-            for ln, text in enumerate(open(os.path.join(BUILD, u + '.c')), 1):
-                m = re.search(r'/\*@L:(\w+):(\d+):([CN])\*/', text)
-                if m:
-                    markers[(os.path.join(BUILD, u + '.c'), ln)] = m.groups()
-        uw = []
-        r.contract_loops = []
-        for l in loops:
-            loc = l.get('sourceLocation', {})
-            mk = markers.get((loc.get('file'), int(loc.get('line', 0))))
-            if mk and mk[2] == 'C':
-                r.contract_loops.append(l['name'])
-                continue
-            if l['name'].startswith('__CPROVER') or not loc.get('file'):
-                continue
-            fn = l['name'].rsplit('.', 1)[0]
-            uw.append(f"{l['name']}:{g.unwind_by.get(l['name'], g.unwind_by.get(fn, g.unwind or 1))}")
-        if uw:
-            gb1 = os.path.join(workdir, 'a1.gb')
-            rc, out = sh(['goto-instrument', '--unwindset', ','.join(uw), '--unwinding-assertions', gb, gb1], timeout=600)
-            r.log += out
-            if rc != 0:
-                r.detail = 'goto-instrument --unwindset failed:\n' + out[-2000:]
-                return r
-            gb = gb1
+        gb = gb1
     if g.enforce or g.replace or g.loop_contracts:
         gb2 = os.path.join(workdir, 'b.gb')
         cmd = ['goto-instrument', '--dfcc', g.entry]
@@ -184,30 +192,29 @@ def run_group(g, workdir):
             r.detail = 'goto-instrument failed:\n' + out[-3000:]
             return r
         cur = gb2
-    # bodiless functions must have been replaced by contracts
-    if meta:
-        bodiless = [c for c, i in meta['functions'].items() if not i['has_body']]
-        called = set()
-        for c, i in meta['functions'].items():
-            called |= set(i['calls'])
-        missing = [b for b in bodiless if b in called and b not in g.replace]
-        # only an error if actually reachable from the harness: checked via goto-instrument call graph
-        if missing:
-            rc, out = sh(['goto-instrument', '--reachable-call-graph', cur], timeout=120)
-            reach = set(re.findall(r'-> (\w+)', out))
-            bad = [m for m in missing if m in reach]
-            if bad:
-                r.detail = f'functions without body reachable and not replaced by contract: {bad}'
-                return r
+    # every function reachable from the harness must have a body or have been replaced by its contract
+    # (CBMC would silently treat a body-less function as returning nondet without havocking its pointer arguments)
+    rc, out = sh(['goto-instrument', '--list-undefined-functions', cur], timeout=120)
+    undef = {l.strip() for l in out.splitlines() if re.fullmatch(r'[\w:$]+', l.strip())}
+    undef = {u for u in undef if not (u.startswith('__CPROVER') or u.startswith('contract::') or u.startswith('__builtin')
+                                      or u.startswith('nondet_') or u in LIBC_OK)}
+    if undef:
+        rc, out = sh(['goto-instrument', '--reachable-call-graph', cur], timeout=120)
+        reach = set(re.findall(r'-> ([\w:$]+)', out))
+        bad = sorted(undef & reach)
+        if bad:
+            r.detail = f'functions without a body are reachable and not replaced by a contract: {bad}'
+            return r
     backends = g.backend if isinstance(g.backend, (list, tuple)) else [g.backend]
-    base = ['cbmc', cur, '--json-ui'] + g.checks + g.extra
+    # CBMC 6 enables a default check set (incl. malloc-may-fail branches) that multiplies the formula size by ~20;
+    # the check set is therefore always stated explicitly.
+    base = ['cbmc', cur, '--drop-unused-functions', '--no-standard-checks', '--no-malloc-may-fail'] + g.checks + g.extra
     if g.unwind:
         base += ['--unwind', str(g.unwind), '--unwinding-assertions']
     for u in g.unwindset:
         base += ['--unwindset', u]
-    if not g.loop_contracts:
-        for k, v in g.unwind_by.items():
-            base += ['--unwindset', f'{k}.0:{v},{k}.1:{v},{k}.2:{v},{k}.3:{v}' if '.' not in k else f'{k}:{v}']
+    if not g.loop_contracts and r.unwindset:
+        base += ['--unwindset', ','.join(r.unwindset)]
     base += ['--object-bits', str(g.object_bits or 11)]
     last = None
     for be in backends:
@@ -220,16 +227,15 @@ def run_group(g, workdir):
         if rc == 124 or 'TIMEOUT' in out[-20:]:
             last = f'timeout after {g.timeout}s on {be}'
             continue
-        props, verdict, msgs = parse_json_ui(out)
+        props = parse_text(out)
         if props is None:
-            last = f'{be}: {msgs or out[-1500:]}'
+            last = f'{be}: ' + out[-1500:]
             r.log += out[-3000:]
             continue
         if re.search(r'ignoring (forall|exists)', out):
             last = f'{be}: quantifier ignored by back end'
             continue
-        r.props = [(p.get('property'), p.get('description'), p.get('status'),
-                    (p.get('sourceLocation') or {}).get('line')) for p in props]
+        r.props = props
         failed = [p for p in r.props if p[2] != 'SUCCESS']
         canary = [p for p in failed if 'canary' in (p[1] or '')]
         real = [p for p in failed if 'canary' not in (p[1] or '')]
@@ -239,6 +245,10 @@ def run_group(g, workdir):
             r.canary_ok = bool(have) and len(canary) == len(have)
         r.failed = real
         r.status = 'fail' if real else 'pass'
+        if any('MODEL-BOUND' in (p[1] or '') for p in real):
+            r.status = 'undecided'
+            r.detail = 'a capacity bound of a container MODEL was exceeded (raise CXX_VEC_CAP or lower the harness bound)'
+            break
         if real:
             r.trace_inputs = extract_trace(base + BACKENDS[be], real, g)
         break
@@ -249,10 +259,20 @@ def run_group(g, workdir):
     return r
 
 
+PROP_RE = re.compile(r'^\[([^\]]+)\] (?:line (\d+) )?(.*): (SUCCESS|FAILURE|UNKNOWN|ERROR)$', re.M)
+
+
+def parse_text(out):
+    """property results from cbmc's plain output; None unless the run reached a verdict"""
+    if 'VERIFICATION SUCCESSFUL' not in out and 'VERIFICATION FAILED' not in out:
+        return None
+    return [(m.group(1), m.group(3), m.group(4), m.group(2)) for m in PROP_RE.finditer(out)]
+
+
 def extract_trace(cmd, failed, g):
     """re-run with --trace for the first failed property; return harness-level input assignments"""
     name = failed[0][0]
-    cmd2 = [c for c in cmd] + ['--trace', '--property', name]
+    cmd2 = [c for c in cmd] + ['--json-ui', '--trace', '--property', name]
     rc, out = sh(cmd2, timeout=g.timeout)
     try:
         data = json.loads(out[out.index('['):])
@@ -266,6 +286,21 @@ def extract_trace(cmd, failed, g):
                     lhs = step.get('lhs', '')
                     fn = (step.get('sourceLocation') or {}).get('function', '')
                     v = step.get('value', {})
-                    if fn == g.entry or lhs.startswith('in_') or lhs.startswith('__g'):
-                        vals[lhs] = v.get('data', v.get('name'))
+                    if (fn == g.entry or lhs.startswith('in_') or lhs.startswith('__g')) and '__dfcc' not in lhs \
+                            and not lhs.startswith('__g_ntop') and not lhs.startswith('return_value'):
+                        flatten(lhs, v, vals)
     return {'property': name, 'assignments': vals}
+
+
+def flatten(lhs, v, out, depth=0):
+    """flatten a CBMC JSON trace value (struct members / array elements) into scalar assignments"""
+    if not isinstance(v, dict) or depth > 6:
+        return
+    if 'members' in v:
+        for m in v['members']:
+            flatten(f"{lhs}.{m.get('name')}", m.get('value', {}), out, depth + 1)
+    elif 'elements' in v:
+        for e in v['elements'][:80]:
+            flatten(f"{lhs}[{e.get('index')}]", e.get('value', {}), out, depth + 1)
+    else:
+        out[lhs] = v.get('data', v.get('name'))
